@@ -33,7 +33,8 @@ ANCHORS = [('optiland.geometries.standard', 'StandardGeometry.distance'),
            ('optiland.wavefront', 'Wavefront._get_reference_sphere'), ('optiland.wavefront', 'Wavefront._correct_tilt'),
            ('optiland.psf', 'FFTPSF.strehl_ratio'), ('optiland.psf', 'FFTPSF._get_normalization')]
 FAMILIES = ['paraboloid', 'paraboloid-convex', 'paraboloid-folded', 'ellipsoid-foci', 'cassegrain', 'gregorian', 'plano-hyperbolic',
-            'ellipsoid-refracting-immersed', 'sphere-mirror-centre', 'sphere-refract-centre', 'aplanatic']
+            'ellipsoid-refracting-immersed', 'sphere-mirror-centre', 'sphere-refract-centre', 'aplanatic',
+            'paraboloid-aplanatic', 'aplanatic-after-mirror']
 
 
 def base(wl=0.55):
@@ -178,6 +179,54 @@ def gen_case(rng, tier, i):
                                             dict(type='standard', radius='inf', t=0.0, medium={'n': n})],
                     aperture=['objectNA', na], field_type='object_height', fields=[[0.0, 0, 0]])
         info.update(fno=1 / (2 * na), scale=abs(R), image=[0.0, 0.0, R], real=False, n1=1.0, n2=n)
+    elif fam == 'paraboloid-aplanatic':
+        # catadioptric: a paraboloid brings collimated light to its focus; on the way (light now travelling towards -z) a
+        # spherical refracting surface whose aplanatic point is that focus takes the beam into a medium n2 - stigmatic at
+        # any aperture with sin U <= 1/n2, the image is real and lies inside the medium
+        f = L.loguniform(rng, 10, 1000)
+        n2 = float(rng.uniform(1.3, 3.0))
+        d = float(rng.uniform(0.2, 0.8) * f)
+        Ra = (f - d) / (1 + n2)                 # |R| of the sphere: focus at |R| (1 + n2) behind its vertex
+        s2 = Ra * (1 + 1 / n2)
+        # geometric limits: sin U <= 1/n2 (the ray reaches the sphere at all), and the point of incidence, at polar angle
+        # I + U = asin(n2 sin U) + U from the vertex, must stay on the vertex hemisphere the prescription describes
+        Umax = math.asin(0.85 / n2)
+        lo_, hi_ = 0.0, Umax
+        if math.asin(n2 * math.sin(Umax)) + Umax > math.radians(80):
+            for _ in range(60):
+                mid = 0.5 * (lo_ + hi_)
+                if math.asin(n2 * math.sin(mid)) + mid > math.radians(80):
+                    hi_ = mid
+                else:
+                    lo_ = mid
+            Umax = lo_
+        hmax = 2 * f * math.tan(0.5 * Umax)
+        epd = min(f / speed, 2 * hmax)
+        spec.update(obj_t='inf', surfaces=[dict(type='standard', radius=-2 * f, conic=-1.0, medium='mirror', t=-d, stop=True),
+                                           dict(type='standard', radius=-Ra, medium={'n': n2}, t=-s2),
+                                           dict(type='standard', radius='inf', t=0.0, medium={'n': n2})],
+                    aperture=['EPD', epd], field_type='angle', fields=[[0.0, 0, 0]])
+        info.update(fno=f / epd, scale=f, image=[0.0, 0.0, -d - s2], real=True, n=n2)
+    elif fam == 'aplanatic-after-mirror':
+        # the aplanatic pair of a refracting sphere seen through a flat folding mirror: the light meets the sphere while
+        # travelling towards -z (virtual image, decided on the record of the sphere)
+        n1 = float(rng.uniform(1.0, 3.0))
+        n2 = float(rng.uniform(1.0, 4.0))
+        if abs(n1 - n2) < 0.05:
+            n2 = n1 + 0.3
+        Ra = L.loguniform(rng, 10, 1000)
+        s = Ra * (1 + n2 / n1)
+        s2 = Ra * (1 + n1 / n2)
+        d0 = float(rng.uniform(0.2, 0.8) * s)
+        d1 = s - d0
+        na_max = 0.85 * n1 * min(1.0, n2 / n1) * (Ra / s) * 0.9
+        na = min(na_max, n1 / (2 * speed))
+        spec.update(obj_t=d0, obj_n=({'n': n1} if n1 != 1.0 else 'air'),
+                    surfaces=[dict(type='standard', radius='inf', medium='mirror', t=-d1, stop=True),
+                              dict(type='standard', radius=Ra, medium={'n': n2}, t=-Ra * 0.2),
+                              dict(type='standard', radius='inf', t=0.0, medium={'n': n2})],
+                    aperture=['objectNA', na], field_type='object_height', fields=[[0.0, 0, 0]])
+        info.update(fno=n1 / (2 * na), scale=Ra, image=[0.0, 0.0, -d1 + s2], real=False, n1=n1, n2=n2, vsurf=2)
     else:  # aplanatic points of a spherical refracting surface; object inside medium n1, real object in front (R < 0)
         n1 = float(rng.uniform(1.3, 4.0))
         n2 = float(rng.uniform(1.0, 4.0))
@@ -292,8 +341,9 @@ def check_case(case, rec):
                           msg=f'{fam}: Strehl ratio {st!r} for a stigmatic system')
     else:
         # virtual image: decide on the surface record by back-extension of the refracted rays
-        x, y, z = sg.x[1], sg.y[1], sg.z[1]
-        Ld, Md, Nd, opd = sg.L[1], sg.M[1], sg.N[1], sg.opd[1]
+        vs = int(info.get('vsurf', 1))
+        x, y, z = sg.x[vs], sg.y[vs], sg.z[vs]
+        Ld, Md, Nd, opd = sg.L[vs], sg.M[vs], sg.N[vs], sg.opd[vs]
         ok = np.isfinite(x) & np.isfinite(Ld)
         rec.check('rays-exist', bool(ok.all()), msg=f'{fam}: {int((~ok).sum())} of {len(ok)} rays inside the geometric aperture '
                                                     f'limit were lost at the surface')
